@@ -42,31 +42,48 @@ static void glog(int lib, const char* fn, uint64_t a0)
   g_glog.push_back(GuestRec{ lib, cur ? cur->inst_id : -1, fn, a0 });
   bev("guest lib%d %s(%llu)", lib, fn, (unsigned long long)a0);
 }
-using PT = Sbx::T_PointerType; // guest pointer representation (uint32_t; uint64_t in the p64 build)
+using GP = Sbx::T_PointerType; // guest pointer representation as the plug-in declares it (an integer type; void* in the pvoid build)
+using PT = std::conditional_t<sizeof(GP) == 4, uint32_t, uint64_t>; // ... and its bits (uint32_t; uint64_t in the p64 and pvoid builds)
+template<class P = GP>
+static inline PT gp_bits(P p)
+{
+  if constexpr (std::is_pointer_v<P>)
+    return (PT) reinterpret_cast<uintptr_t>(p);
+  else
+    return (PT)p;
+}
+template<class P = GP>
+static inline P gp_make(PT v)
+{
+  if constexpr (std::is_pointer_v<P>)
+    return reinterpret_cast<P>((uintptr_t)v);
+  else
+    return (P)v;
+}
 static PT g_cb_result_seen; // what the guest got back from the callback
 template<int LIB>
 struct G
 {
-  static PT echo_ptr(PT p)
+  static GP echo_ptr(GP p)
   {
-    glog(LIB, "echo_ptr", p);
+    glog(LIB, "echo_ptr", gp_bits(p));
     return p;
   }
-  static PT ret_ptr(uint32_t bits)
+  static GP ret_ptr(uint32_t bits)
   {
     glog(LIB, "ret_ptr", bits);
-    return (PT)bits;
+    return gp_make((PT)bits);
   }
   static int32_t lib_id()
   {
     glog(LIB, "lib_id", 0);
     return LIB;
   }
-  static PT call_cb(PT idx, uint32_t bits)
+  static GP call_cb(GP idx, uint32_t bits)
   {
-    glog(LIB, "call_cb", idx);
-    PT r = Sbx::guest_call<PT, PT>((uint32_t)idx, (PT)bits);
-    g_cb_result_seen = r;
+    glog(LIB, "call_cb", gp_bits(idx));
+    GP r = Sbx::guest_call<GP, GP>((uint32_t)gp_bits(idx), gp_make((PT)bits));
+    g_cb_result_seen = gp_bits(r);
     return r;
   }
 };
@@ -135,6 +152,8 @@ enum Kind
   P_ARRAY_COPY,
   P_VOL_ASSIGN,
   P_FNPTR_CELL,
+  P_TABLE_INDEX,
+  P_COMPARE,
   K_COUNT
 };
 static const char* kKind[] = { "create",       "destroy",      "malloc",     "free",        "free_dead",
@@ -144,7 +163,8 @@ static const char* kKind[] = { "create",       "destroy",      "malloc",     "fr
                                "field_addr",   "load",         "load_field", "load_struct", "store",
                                "store_field",  "store_struct", "cast",       "opaque",      "guest_write_cell",
                                "app_ptr",      "grant",        "invoke_echo", "invoke_retptr", "invoke_callback",
-                               "volatile_ptr_op", "array_of_pointers_copy", "volatile_to_volatile_assign", "function_pointer_cell" };
+                               "volatile_ptr_op", "array_of_pointers_copy", "volatile_to_volatile_assign", "function_pointer_cell",
+                               "table_index", "pointer_compare" };
 static_assert(sizeof(kKind) / sizeof(kKind[0]) == K_COUNT);
 
 enum TypeTag
@@ -385,7 +405,23 @@ struct MemWorld : World
           break;
         case P_GRANT:
           o.a[1] = r.range(1, 64);
-          o.a[2] = r.chance(1, 3);
+          o.a[2] = r.chance(1, 3) ? (int64_t)r.range(1, 3) : 0; // refused (bit 1: the backend hands the caller's pointer back with success=false)
+          break;
+        case P_TABLE_INDEX: {
+          static const int64_t idx[] = { -1, -2, -3, -4, -127, -128, -129, 127, 128, 129, 252, 253, 254, 255, 256, 257, 298, 299, 300, 301, 511,
+                                         32767, 32768, -32768, 65532, 65533, 65534, 65535, 65536, 65537, 65997, 65999, 66000, 66001, 131071,
+                                         (1LL << 31) - 1, 1LL << 31, (1LL << 32) - 3, (1LL << 32) + 5, -(1LL << 32) + 2 };
+          o.a[1] = (int64_t)r.below(6); // bit0: 66000-byte table (needs room), >>1: placement (first usable bytes / last bytes / middle)
+          o.a[2] = (int64_t)r.below(10); // index type
+          o.a[3] = r.chance(1, 4) ? (int64_t)r.below(300) : idx[r.below(sizeof(idx) / sizeof(idx[0]))];
+          o.a[4] = (int64_t)r.below(3); // plain / tainted / in sandbox memory
+          break;
+        }
+        case P_COMPARE:
+          o.a[1] = (int64_t)r.below(64); // second sandbox
+          o.a[2] = r.chance(1, 6) ? 0 : (int64_t)r.below((uint64_t)size); // representation in the first cell
+          o.a[3] = r.chance(1, 2) ? -1 : r.chance(1, 5) ? 0 : (int64_t)r.below((uint64_t)size); // second cell (-1: the same bits)
+          o.a[4] = (int64_t)r.below(10); // form
           break;
         case V_ARITH:
           o.a[1] = (int64_t)r.below(5); // which operation
@@ -1606,8 +1642,10 @@ struct MemWorld : World
       buf = pool + 160;
     for (size_t i = 0; i < n; i++)
       buf[i] = (char)('a' + i % 26);
-    if (op.a[2])
+    if (op.a[2]) {
       g_fault.grant_refuse = 1;
+      g_fault.refuse_echoes_pointer = (op.a[2] & 2) != 0;
+    }
     bool copied = false;
     Outcome o = attempt([&] {
       TP<char> t = rlbox::copy_memory_or_grant_access(*st.sb, buf, n, false, copied);
@@ -1901,6 +1939,165 @@ struct MemWorld : World
     C->probe("function_pointer_round_trip");
   }
 
+  // Static arrays long enough that an index of a narrow type can be negative, or wrap, before it reaches the extent.
+  // The table sits at the first usable bytes, the last bytes or the middle of the region: an accepted index outside
+  // [0, extent) at either edge is a pointer outside the sandbox (C03, checked by push()).
+  template<class F>
+  void with_index_type(int s, int nt, int wrap, int64_t v, F&& f)
+  {
+    switch (nt) {
+      case 0:
+        with_wrap<signed char>(s, wrap, v, f);
+        break;
+      case 1:
+        with_wrap<char>(s, wrap, v, f);
+        break;
+      case 2:
+        with_wrap<unsigned char>(s, wrap, v, f);
+        break;
+      case 3:
+        with_wrap<short>(s, wrap, v, f);
+        break;
+      case 4:
+        with_wrap<unsigned short>(s, wrap, v, f);
+        break;
+      case 5:
+        with_wrap<int>(s, wrap, v, f);
+        break;
+      case 6:
+        with_wrap<unsigned>(s, wrap, v, f);
+        break;
+      case 7:
+        with_wrap<long>(s, wrap, v, f);
+        break;
+      case 8:
+        with_wrap<long long>(s, wrap, v, f);
+        break;
+      default:
+        with_wrap<size_t>(s, wrap, v, f);
+        break;
+    }
+  }
+  void do_table_index(const Op& op)
+  {
+    int s = pick_sbx(op.a[0]);
+    SbxState& st = S[(size_t)s];
+    if (st.state != 1)
+      return;
+    bool big = (op.a[1] & 1) && st.size() >= 2 * sizeof(SimBig);
+    size_t tsz = big ? sizeof(SimBig) : sizeof(SimTable);
+    if (st.size() < tsz + 64)
+      return;
+    int place = (int)(((uint64_t)op.a[1] >> 1) % 3);
+    uintptr_t at = place == 0 ? st.base() + 8 : place == 1 ? st.base() + st.size() - tsz : st.base() + ((st.size() / 2) & ~(uintptr_t)7);
+    int nt = (int)((uint64_t)op.a[2] % 10);
+    int wrap = (int)((uint64_t)op.a[4] % 3);
+    if (nt <= 4)
+      C->probe("static_array_indexed_with_narrow_integer_type");
+    Outcome o = attempt([&] {
+      if (big) {
+        auto tp = st.sb->UNSAFE_accept_pointer(reinterpret_cast<SimBig*>(at));
+        with_index_type(s, nt, wrap, op.a[3], [&](auto& i) { push<char>(s, &tp->c[i], "table_index"); });
+      } else {
+        auto tp = st.sb->UNSAFE_accept_pointer(reinterpret_cast<SimTable*>(at));
+        with_index_type(s, nt, wrap, op.a[3], [&](auto& i) { push<int>(s, &tp->tbl[i], "table_index"); });
+      }
+    });
+    C->ev("table_index big=%d place=%d type=%d wrap=%d i=%lld -> %s", (int)big, place, nt, wrap, (long long)op.a[3], oname(o));
+  }
+
+  // Equality of pointers held in sandbox memory (of one sandbox or of two) and of their tainted copies is the equality
+  // of the addresses they translate to, each relative to its own sandbox (C04).
+  void do_compare(const Op& op)
+  {
+    int s1 = pick_sbx(op.a[0]), s2 = pick_sbx(op.a[1]);
+    if (S[(size_t)s1].state != 1 || S[(size_t)s2].state != 1)
+      return;
+    SbxState& a = S[(size_t)s1];
+    SbxState& b = S[(size_t)s2];
+    rlbox::tainted<int**, Sbx> ca = a.pcell;
+    rlbox::tainted<int**, Sbx> cb = s1 != s2 ? b.pcell : rlbox::sandbox_reinterpret_cast<int**>(a.scratch);
+    uint32_t offa = (uint32_t)((uintptr_t)ca.UNSAFE_unverified() - a.base());
+    uint32_t offb = (uint32_t)((uintptr_t)cb.UNSAFE_unverified() - b.base());
+    PT ra = (PT)(uint32_t)op.a[2];
+    PT rb = op.a[3] < 0 ? ra : (PT)(uint32_t)op.a[3];
+    memcpy(a.impl()->gptr(offa), &ra, sizeof ra);
+    memcpy(b.impl()->gptr(offb), &rb, sizeof rb);
+    uintptr_t ha = ra == 0 ? 0 : a.base() + (ra & (a.size() - 1));
+    uintptr_t hb = rb == 0 ? 0 : b.base() + (rb & (b.size() - 1));
+    if (s1 != s2)
+      C->probe("pointers_of_two_sandboxes_compared");
+    if (s1 != s2 && ra == rb && ra != 0)
+      C->probe("equal_representations_in_two_sandboxes_compared");
+    int form = (int)((uint64_t)op.a[4] % 10);
+    bool got = false, want = false;
+    Outcome o = attempt([&] {
+      rlbox::tainted<int*, Sbx> ta = nullptr, tb = nullptr;
+      if (form >= 2) {
+        ta = *ca;
+        tb = *cb;
+      }
+      switch (form) {
+        case 0:
+          got = (*ca == *cb).unverified_safe_because("simulation oracle");
+          want = ha == hb;
+          break;
+        case 1:
+          got = (*ca != *cb).unverified_safe_because("simulation oracle");
+          want = ha != hb;
+          break;
+        case 2:
+          got = (ta == *cb).unverified_safe_because("simulation oracle");
+          want = ha == hb;
+          break;
+        case 3:
+          got = (*ca != tb).unverified_safe_because("simulation oracle");
+          want = ha != hb;
+          break;
+        case 4:
+          got = (ta == tb).unverified_safe_because("simulation oracle");
+          want = ha == hb;
+          break;
+        case 5:
+          got = (ta != tb).unverified_safe_because("simulation oracle");
+          want = ha != hb;
+          break;
+        case 6:
+          got = (*ca == nullptr).unverified_safe_because("simulation oracle");
+          want = ha == 0;
+          break;
+        case 7:
+          got = ta == nullptr;
+          want = ha == 0;
+          break;
+        case 8:
+          got = (*cb != nullptr).unverified_safe_because("simulation oracle");
+          want = hb != 0;
+          break;
+        default:
+          got = !tb;
+          want = hb == 0;
+          break;
+      }
+    });
+    C->ev("pointer_compare form=%d sandboxes %d/%d reps %llu/%llu -> %s %d", form, s1, s2, (unsigned long long)ra, (unsigned long long)rb, oname(o), (int)got);
+    if (o != OK) {
+      C->violate("C04", "comparison_fails@pointer_compare", "comparing pointer cells of live sandboxes #%d and #%d: %s: %s", s1, s2, oname(o), g_last_abort_msg.c_str());
+      return;
+    }
+    if (got != want)
+      C->violate("C04",
+                 std::string(s1 != s2 ? "compared_without_per_sandbox_translation@" : (ra == 0 || rb == 0) ? "null_not_preserved@" : "wrong_result@") + "pointer_compare",
+                 "form %d: cells hold %llu (sandbox #%d) and %llu (sandbox #%d), i.e. addresses %s: result %d",
+                 form,
+                 (unsigned long long)ra,
+                 s1,
+                 (unsigned long long)rb,
+                 s2,
+                 ha == hb ? "equal" : "different",
+                 (int)got);
+  }
+
   void run(const Plan& p, Ctx& c) override
   {
     C = &c;
@@ -2045,6 +2242,12 @@ struct MemWorld : World
           break;
         case P_FNPTR_CELL:
           do_fnptr_cell(op);
+          break;
+        case P_TABLE_INDEX:
+          do_table_index(op);
+          break;
+        case P_COMPARE:
+          do_compare(op);
           break;
       }
       int live = 0;
